@@ -234,6 +234,7 @@ type world struct {
 	wrote    bool   // any knob write in this history
 	initDone bool
 	prevVal  *intstr.IntOrString // step value in force at the previous UpgradeBatch call
+	prevOver bool                // the exposure already exceeded the plan (+slack) after the previous call
 }
 
 type snapshot struct {
@@ -248,6 +249,7 @@ type snapshot struct {
 	event  string
 	wrote  bool
 	prev   *intstr.IntOrString
+	over   bool
 }
 
 func podTemplate() corev1.PodTemplateSpec {
@@ -370,13 +372,13 @@ func (w *world) reset(size int, plan []string) {
 	w.rel.Spec.ReleasePlan.Batches = batchesOf(plan)
 	w.rel.Spec.ReleasePlan.BatchPartition = pointer.Int32(0)
 	w.rel.Status = v1beta1.BatchReleaseStatus{}
-	w.calls, w.stage, w.event, w.wrote, w.initDone, w.prevVal = 0, 0, "", false, false, nil
+	w.calls, w.stage, w.event, w.wrote, w.initDone, w.prevVal, w.prevOver = 0, 0, "", false, false, nil, false
 	expectations.ResourceExpectations.DeleteExpectations(w.ns + "/" + relName)
 }
 
 func (w *world) snap() *snapshot {
 	s := &snapshot{status: *w.rel.Status.DeepCopy(), plan: append([]v1beta1.ReleaseBatch(nil), w.rel.Spec.ReleasePlan.Batches...),
-		bp: *w.rel.Spec.ReleasePlan.BatchPartition, size: w.size, canary: w.canary, calls: w.calls, stage: w.stage, event: w.event, wrote: w.wrote, prev: w.prevVal}
+		bp: *w.rel.Spec.ReleasePlan.BatchPartition, size: w.size, canary: w.canary, calls: w.calls, stage: w.stage, event: w.event, wrote: w.wrote, prev: w.prevVal, over: w.prevOver}
 	s.objs = append(s.objs, w.mustGet(w.k.GVR, appName))
 	if w.canary != "" {
 		s.objs = append(s.objs, w.mustGet(depGVR, w.canary))
@@ -392,7 +394,7 @@ func (w *world) restore(s *snapshot) {
 	w.rel.Status = *s.status.DeepCopy()
 	w.rel.Spec.ReleasePlan.Batches = append([]v1beta1.ReleaseBatch(nil), s.plan...)
 	w.rel.Spec.ReleasePlan.BatchPartition = pointer.Int32(s.bp)
-	w.size, w.canary, w.calls, w.stage, w.event, w.wrote, w.prevVal = s.size, s.canary, s.calls, s.stage, s.event, s.wrote, s.prev
+	w.size, w.canary, w.calls, w.stage, w.event, w.wrote, w.prevVal, w.prevOver = s.size, s.canary, s.calls, s.stage, s.event, s.wrote, s.prev, s.over
 }
 
 type controlPlane interface {
@@ -693,6 +695,8 @@ func (w *world) doUpgrade() (callInfo, []verdict) {
 		w.rel.Status = *newStatus
 	}
 	over := exceeds(after, ci.Planned, w.size)
+	wasOver := w.prevOver
+	w.prevOver = over
 	switch {
 	case after > before:
 		ci.Outcome = "knob-raised"
@@ -738,7 +742,9 @@ func (w *world) doUpgrade() (callInfo, []verdict) {
 			// "when the workload is scaled mid-release it holds for percentage steps relative to the new size": after a
 			// scale-up the controller has recomputed the batch for the new size; what its knob now allows is judged
 			// against the percentage step at that size, with one pod of granularity (ceil of the 1% slack)
-			if strings.HasSuffix(class, "scale-up") && valueClass(cur) == "percent" && float64(after-ci.Planned) > math.Ceil(0.01*float64(w.size)) {
+			// (only when the scale-up created the excess: an excess inherited from an earlier, larger step of a lowered
+			// plan cannot be retracted without moving the knob back and is not charged to the scale-up)
+			if strings.HasSuffix(class, "scale-up") && !wasOver && valueClass(cur) == "percent" && float64(after-ci.Planned) > math.Ceil(0.01*float64(w.size)) {
 				vs = append(vs, verdict{"C01/arith/exceeds-after-scale-up/" + w.k.Name + "/" + class,
 					fmt.Sprintf("after the scale-up to %d replicas UpgradeBatch(batch %d = %s) on %s leaves [%s]: %d new-revision pods allowed, the percentage step plans %d relative to the new size (slack %.0f)",
 						w.size, batch, cur.String(), w.k.Name, ka, after, ci.Planned, math.Ceil(0.01*float64(w.size)))})
